@@ -10,6 +10,17 @@ back to coq/gen_default and relies on the differential correspondence):
   c_seed_wf        the seed f-strings of random() and uuid() contain self.workflow_identity.workflow_id
   c_task_key_call  the execute_task record key f-string contains call.call_id
   c_seq_offset     `sequence = self._operation_counters.get(<op>, 0) + K` inside the generators (K)
+  c_replay_uncond  the replay branch of execute_task (`if <recorded id> is not None:`) hands the recorded
+                   invocation back on every path: straight-line statements ending in `return`; a branch
+                   that contains a condition / try / loop (the replay depends on something else than the
+                   record, e.g. the state of the recorded invocation) -> false
+  c_gen_private    the value generators (the nested functions of random / utc_now / uuid, and the bodies of
+                   those methods) keep no state outside their own call: every attribute they touch is an
+                   instance attribute set in __init__ (the executor is per execution) or a whitelisted
+                   member, every free name is a local, a builtin or an imported module; a CLASS-level data
+                   attribute, a module-level variable, a `global`/`nonlocal` statement or the module-global
+                   generator (`random.seed` / `random.random` ...) -> false (process-wide state that a
+                   thread switch inside the helper call exposes to other workflows)
 Also checked: every get/set_workflow_data call of the executor is keyed by self.workflow_identity; the
 record key of _deterministic_operation contains operation and sequence; and (normalised AST hash) the
 functions mirrored by hand in Model/Workflow.v still have the shape they were transcribed from
@@ -256,11 +267,166 @@ def executor_facts(det_src: str) -> dict:
         raise TranslateError("execute_task: unexpected workflow data accesses")
     tparts = _fstring_parts(_find_assign(ex, "task_invocation_key"))
     shapes = {n: _shape(_method(cls, n)) for n in EXPECTED_SHAPES}
-    return {"seed_wf": seeds["random"] and seeds["uuid"], "seed_wf_random": seeds["random"], "seed_wf_uuid": seeds["uuid"],
+    private, why_shared = generators_private(ast.parse(det_src), cls)
+    return {"replay_uncond": replay_unconditional(ex), "gen_private": private, "gen_shared_state": why_shared,
+            "seed_wf": seeds["random"] and seeds["uuid"], "seed_wf_random": seeds["random"], "seed_wf_uuid": seeds["uuid"],
             "task_key_call": "expr:call.call_id" in tparts, "seq_offset": offsets.pop(), "shapes": shapes}
 
 
-def emit(scope: str, seed_wf: bool, task_key_call: bool, seq_offset: int) -> str:
+# ------------------------------------------------------------------ replay branch of execute_task
+_COMPOUND = (ast.If, ast.IfExp, ast.Try, ast.While, ast.For, ast.Match, ast.With, ast.BoolOp,
+             ast.AsyncFor, ast.AsyncWith) + ((ast.TryStar,) if hasattr(ast, "TryStar") else ())
+
+
+def replay_unconditional(ex: ast.FunctionDef) -> bool:
+    """execute_task: `<id> = ...get_workflow_data(self.workflow_identity, <key>)`, then
+    `if <id> is not None: <branch>`.  True iff the branch is straight-line code ending in `return`."""
+    recorded = None
+    for n in ast.walk(ex):
+        if isinstance(n, ast.Assign) and len(n.targets) == 1 and isinstance(n.targets[0], ast.Name) \
+                and isinstance(n.value, ast.Call) and (_dotted(n.value.func) or "").endswith("get_workflow_data"):
+            recorded = n.targets[0].id
+    if recorded is None:
+        raise TranslateError("execute_task: the recorded invocation id is not read into a local")
+    branches = []
+    for n in _strip_doc(ex.body):
+        if isinstance(n, ast.If):
+            t = n.test
+            if isinstance(t, ast.Compare) and isinstance(t.left, ast.Name) and t.left.id == recorded \
+                    and len(t.ops) == 1 and isinstance(t.ops[0], ast.IsNot) \
+                    and isinstance(t.comparators[0], ast.Constant) and t.comparators[0].value is None:
+                branches.append(n)
+    if len(branches) != 1:
+        raise TranslateError("execute_task: replay branch `if <recorded id> is not None:` not found")
+    br = branches[0]
+    if br.orelse:
+        raise TranslateError("execute_task: replay branch has an else part")
+    straight = not any(isinstance(x, _COMPOUND) for st in br.body for x in ast.walk(st))
+    returns = bool(br.body) and isinstance(br.body[-1], ast.Return) and br.body[-1].value is not None
+    if straight and not returns:
+        raise TranslateError("execute_task: straight-line replay branch does not return")
+    return straight and returns
+
+
+# ------------------------------------------------------------------ privacy of the value generators
+_BUILTINS = {"int", "str", "float", "bytes", "len", "max", "min", "round", "abs", "hex", "format", "bool",
+             "tuple", "list", "dict", "isinstance", "repr", "divmod", "pow", "sum", "range"}
+_SELF_MEMBERS = {"_operation_counters", "workflow_identity", "app"}
+
+
+def _walk_code(node: ast.AST):
+    """ast.walk without type annotations (they are not executed state)."""
+    todo = [node]
+    while todo:
+        n = todo.pop()
+        yield n
+        for name, val in ast.iter_fields(n):
+            if name in ("annotation", "returns", "type_comment", "decorator_list"):
+                continue
+            if isinstance(val, list):
+                todo.extend(x for x in val if isinstance(x, ast.AST))
+            elif isinstance(val, ast.AST):
+                todo.append(val)
+_GLOBAL_RNG_OK = {"Random", "SystemRandom"}
+
+
+def generators_private(tree: ast.Module, cls: ast.ClassDef) -> tuple[bool, list[str]]:
+    """(private?, reasons).  Raises TranslateError on names it cannot classify."""
+    modules, mod_vars, mod_defs = set(), set(), set()
+    for n in tree.body:
+        if isinstance(n, ast.Import):
+            modules |= {(a.asname or a.name).split(".")[0] for a in n.names}
+        elif isinstance(n, ast.ImportFrom):
+            modules |= {a.asname or a.name for a in n.names}
+        elif isinstance(n, ast.If):                      # `if TYPE_CHECKING:` imports
+            for m in ast.walk(n):
+                if isinstance(m, ast.ImportFrom | ast.Import):
+                    modules |= {(a.asname or a.name).split(".")[0] for a in m.names}
+        elif isinstance(n, ast.Assign | ast.AnnAssign | ast.AugAssign):
+            for t in (n.targets if isinstance(n, ast.Assign) else [n.target]):
+                for m in ast.walk(t):
+                    if isinstance(m, ast.Name):
+                        mod_vars.add(m.id)
+        elif isinstance(n, ast.FunctionDef | ast.ClassDef | ast.AsyncFunctionDef):
+            mod_defs.add(n.name)
+    # `T = TypeVar("T")` style constants are immutable markers, not state
+    mod_vars -= {t.id for n in tree.body if isinstance(n, ast.Assign) and isinstance(n.value, ast.Call)
+                 and (_dotted(n.value.func) or "").split(".")[-1] in ("TypeVar", "getLogger", "ParamSpec")
+                 for t in n.targets if isinstance(t, ast.Name)}
+    class_data, methods, inst = set(), set(), set()
+    for n in cls.body:
+        if isinstance(n, ast.Assign | ast.AnnAssign):
+            if isinstance(n, ast.AnnAssign) and n.value is None:
+                continue
+            for t in (n.targets if isinstance(n, ast.Assign) else [n.target]):
+                if isinstance(t, ast.Name):
+                    class_data.add(t.id)
+        elif isinstance(n, ast.FunctionDef):
+            methods.add(n.name)
+            for m in ast.walk(n):
+                if isinstance(m, ast.Assign | ast.AnnAssign | ast.AugAssign) and n.name == "__init__":
+                    for t in (m.targets if isinstance(m, ast.Assign) else [m.target]):
+                        if isinstance(t, ast.Attribute) and _dotted(t.value) == "self":
+                            inst.add(t.attr)
+    reasons: list[str] = []
+    visited: set[str] = set()
+
+    def check(fn: ast.FunctionDef, outer_locals: set[str]) -> None:
+        if fn.name in visited:
+            return
+        visited.add(fn.name)
+        local = set(outer_locals)
+        for m in _walk_code(fn):
+            if isinstance(m, ast.Name) and isinstance(m.ctx, ast.Store):
+                local.add(m.id)
+            elif isinstance(m, ast.FunctionDef) and m is not fn:
+                local.add(m.name)
+            elif isinstance(m, ast.arg):
+                local.add(m.arg)
+        for m in _walk_code(fn):
+            if isinstance(m, ast.Global | ast.Nonlocal):
+                reasons.append(f"{fn.name}: {type(m).__name__.lower()} {', '.join(m.names)}")
+            elif isinstance(m, ast.Attribute):
+                root, chain = m, []
+                while isinstance(root, ast.Attribute):
+                    chain.append(root.attr)
+                    root = root.value
+                chain.reverse()
+                is_cls = isinstance(root, ast.Name) and root.id == cls.name
+                is_self_cls = isinstance(root, ast.Call) and _dotted(root.func) == "type" or \
+                    (isinstance(root, ast.Name) and root.id == "self" and chain[0] == "__class__")
+                if is_self_cls and chain[0] == "__class__":
+                    chain = chain[1:] or ["__class__"]
+                if isinstance(root, ast.Name) and root.id == "self" and not is_self_cls or is_cls or is_self_cls:
+                    a = chain[0]
+                    if a in class_data:
+                        reasons.append(f"{fn.name}: class-level attribute {cls.name}.{a}")
+                    elif a in inst or a in _SELF_MEMBERS:
+                        pass
+                    elif a in methods:                  # a helper method of the executor: same rules
+                        check(_method(cls, a), set())
+                    else:
+                        raise TranslateError(f"{fn.name}: attribute self.{a} not classified")
+                elif isinstance(root, ast.Name) and root.id == "random" and "random" in modules \
+                        and "random" not in local and chain[0] not in _GLOBAL_RNG_OK:
+                    reasons.append(f"{fn.name}: module-global generator random.{chain[0]}")
+            elif isinstance(m, ast.Name) and isinstance(m.ctx, ast.Load):
+                if m.id in local or m.id in _BUILTINS or m.id in modules or m.id == "self" or m.id == cls.name:
+                    continue
+                if m.id in mod_vars:
+                    reasons.append(f"{fn.name}: module-level variable {m.id}")
+                elif m.id in mod_defs:
+                    raise TranslateError(f"{fn.name}: module-level helper {m.id} not analysed")
+                else:
+                    raise TranslateError(f"{fn.name}: free name {m.id} not classified")
+
+    for name in ("random", "utc_now", "uuid"):
+        check(_method(cls, name), set())
+    return (not reasons), sorted(set(reasons))
+
+
+def emit(scope: str, seed_wf: bool, task_key_call: bool, seq_offset: int, replay_uncond: bool = True,
+         gen_private: bool = True) -> str:
     b = lambda x: "true" if x else "false"  # noqa: E731
     return "\n".join([
         "(* GENERATED by harness/translate/workflow.py from pynenc/workflow/workflow_context.py,",
@@ -269,7 +435,8 @@ def emit(scope: str, seed_wf: bool, task_key_call: bool, seq_offset: int) -> str
         "",
         "Definition gen_cfg : cfg :=",
         f"  {{| c_scope := {scope}; c_seed_wf := {b(seed_wf)}; c_task_key_call := {b(task_key_call)};",
-        f"     c_seq_offset := {int(seq_offset)} |}}.",
+        f"     c_seq_offset := {int(seq_offset)}; c_replay_uncond := {b(replay_uncond)};",
+        f"     c_gen_private := {b(gen_private)} |}}.",
         "",
     ])
 
@@ -284,7 +451,7 @@ def translate(repo: str) -> tuple[str, dict]:
         raise TranslateError("sequence offset out of the modelled range")
     info = {"scope": scope, **sinfo, **{k: v for k, v in f.items() if k != "shapes"}, "shapes": f["shapes"],
             "shape_changed": sorted(k for k, v in EXPECTED_SHAPES.items() if f["shapes"].get(k) != v)}
-    return emit(scope, f["seed_wf"], f["task_key_call"], f["seq_offset"]), info
+    return emit(scope, f["seed_wf"], f["task_key_call"], f["seq_offset"], f["replay_uncond"], f["gen_private"]), info
 
 
 if __name__ == "__main__":
